@@ -96,10 +96,10 @@ type refOpts struct {
 	primaryLeast     bool // the least specific primary is chosen
 	stopRunsInner    bool // an :around that does not call call-next-method still lets the rest run
 	// history mutants (handled in model.call)
-	staleOnRemove   bool // effective-method memo not cleared by remove-method
-	staleOnNewKey   bool // memo cleared by defmethod only when the specialiser tuple already had an entry
-	staleDefault    bool // single-method fast path not recomputed by remove-method
-	staleOnReplace  bool // redefining an existing method keeps serving the old body from the memo
+	staleOnRemove  bool // effective-method memo not cleared by remove-method
+	staleOnNewKey  bool // memo cleared by defmethod only when the specialiser tuple already had an entry
+	staleDefault   bool // single-method fast path not recomputed by remove-method
+	staleOnReplace bool // redefining an existing method keeps serving the old body from the memo
 }
 
 // expectation kinds
@@ -291,8 +291,8 @@ type model struct {
 	versions []version      // table after each mutation, oldest first; versions[0] = empty table
 	opts     refOpts
 	// mutant state
-	memo   map[string]expect
-	deflt  *expect
+	memo               map[string]expect
+	deflt              *expect
 	callsSinceMutation int
 }
 
